@@ -5,6 +5,7 @@
 //   R <bufhex> <op>...        ops: rd:<size>:<m>  vw:<count>  end
 //   F <cap> <op>...           ops: w:<hex>  wn:<size>  rs:<size>  rf:<hex>
 //   W <op>...                 ops: w:<hex>  wn:<size>
+#include <unistd.h>
 #include <cstdint>
 #include <cstring>
 #include <functional>
@@ -445,6 +446,8 @@ int main()
   initRegistry();
   std::string line;
   while (std::getline(std::cin, line)) {
+    alarm(20);   // watchdog: a case that does not finish (e.g. a garbage length decoded by a broken
+                 // reader) kills the harness; the check reports the case and resumes behind it
     TS ts;
     std::istringstream is(line);
     std::string kind, t;
@@ -459,7 +462,7 @@ int main()
     } catch (const std::logic_error &e) {
       res = std::string("harness-error:") + e.what();
     }
-    std::cout << res << "\n";
+    std::cout << res << "\n" << std::flush;
   }
   return 0;
 }
